@@ -12,7 +12,7 @@ from harness import treeops as T
 
 PROPERTY = 'C13'
 LEVEL = 'model_checking'
-REACH_POINTS = ['decode', 'encode', 'iterate', 'random', 'bind.accepted', 'bind.refused']
+REACH_POINTS = ['where.nested', 'decode', 'encode', 'iterate', 'random', 'bind.accepted', 'bind.refused']
 
 
 class Layer(pg.Object):
@@ -269,6 +269,51 @@ def h_where(params, d0, d1):
   return None
 
 
+def h_where_nested(params, r_outer, r_inner, r_inner2, r_y, n):
+  """A `where` filter applies at every depth: a rejected placeholder stays a placeholder also when it sits inside a
+  candidate of an accepted choice; the space is exactly the accepted part."""
+  from engine.chx import concretize
+  rej = {name for name, bit in (('outer', r_outer), ('inner', r_inner), ('inner2', r_inner2), ('y', r_y)) if bool(bit)}
+  with untraced():
+    value = pg.Dict(x=pg.oneof([pg.Dict(p=pg.oneof([1, 2], name='inner'), q=pg.oneof(['u', 'v'], name='inner2')), 'plain'],
+                               name='outer'),
+                    y=pg.oneof([0, 1], name='y'))
+    before = pg.to_json(value)
+    t = pg.template(value, where=lambda x: x.name not in rej)
+    # (the filter is applied per placeholder: accepted placeholders inside a rejected choice are decision points too)
+    nested = (1 if 'inner' in rej else 2) * (1 if 'inner2' in rej else 2)
+    size_x = nested if 'outer' in rej else nested + 1
+    want = size_x * (1 if 'y' in rej else 2)
+    spec = t.dna_spec()
+    reach('where.nested')
+    if spec.space_size != want:
+      return Violation('where_nested:space_size', f'rejected={sorted(rej)}: space {spec.space_size}, accepted part has {want}')
+    dnas = list(spec.iter_dna()) if want > 1 else [pg.DNA(None)]
+    if len(dnas) != want:
+      return Violation('where_nested:iteration_length', f'rejected={sorted(rej)}: {len(dnas)} vs {want}')
+  n = concretize(n, range(len(dnas)))
+  with untraced():
+    v = t.decode(dnas[n])
+    def is_ph(z):
+      return isinstance(z, pg.hyper.HyperValue)
+    got_x, got_y = v.sym_getattr('x'), v.sym_getattr('y')
+    if is_ph(got_y) != ('y' in rej) or is_ph(got_x) != ('outer' in rej):
+      return Violation('where_nested:top_level_placeholder_handling', f'rejected={sorted(rej)}: {v!r}'[:300])
+    if 'outer' not in rej and isinstance(got_x, pg.Dict):
+      if is_ph(got_x.sym_getattr('p')) != ('inner' in rej) or is_ph(got_x.sym_getattr('q')) != ('inner2' in rej):
+        return Violation('where_nested:rejected_nested_placeholder_decoded' if not is_ph(got_x.sym_getattr('p')) and 'inner' in rej
+                         or not is_ph(got_x.sym_getattr('q')) and 'inner2' in rej else 'where_nested:accepted_nested_placeholder_kept',
+                         f'rejected={sorted(rej)}: {v!r}'[:300])
+    if pg.to_json(value) != before:
+      return Violation('where_nested:template_modified', '')
+    if not rej & {'inner', 'inner2'}:
+      # (encoding a value that still holds a placeholder inside a chosen candidate is outside the claim)
+      back = t.encode(v)
+      if not (back == dnas[n]):
+        return Violation('where_nested:encode_not_inverse', f'{dnas[n]!r} -> {back!r}')
+  return None
+
+
 def h_where_none(params, pick):
   """A `where` filter that selects no placeholder: decode(DNA(None)) still must not touch the template (derived
   values are written into a copy), and the same hyper value keeps its full space afterwards."""
@@ -364,6 +409,9 @@ def shards(tier, seed):
   for kind, kname in enumerate(('floatv', 'oneof', 'manyof')):
     out.append(dict(name=f'bind:{kname}', fn='h_bind', params=dict(kind=kind),
                     args=[(n, 'int') for n in ('lo', 'hi', 'smin', 'smax', 'kind', 'pick')], budget_s=b * 3, expect_s=30, per_path_s=20))
+  out.append(dict(name='where_nested', fn='h_where_nested', params={},
+                  args=[('r_outer', 'bool'), ('r_inner', 'bool'), ('r_inner2', 'bool'), ('r_y', 'bool'), ('n', 'int')],
+                  budget_s=b * 2, expect_s=20, per_path_s=20))
   out.append(dict(name='where', fn='h_where', params={}, args=[('d0', 'int'), ('d1', 'int')], budget_s=b, per_path_s=20))
   out.append(dict(name='where_none', fn='h_where_none', params={}, args=[('pick', 'int')], budget_s=b, per_path_s=20))
   return out
